@@ -136,3 +136,33 @@ pub fn steps() -> u64 {
 pub fn steps_reset() {
     STEPS.with(|s| s.set(0));
 }
+
+thread_local! {
+    static STOP_AFTER_BLOCKS: std::cell::Cell<bool> = std::cell::Cell::new(false);
+}
+
+/// When set, `parse_document` on this thread returns after the block phase
+/// (no inline parsing, no footnote pass): leaf blocks keep their raw `content`.
+pub fn set_stop_after_blocks(on: bool) {
+    STOP_AFTER_BLOCKS.with(|c| c.set(on));
+}
+
+pub(crate) fn stop_after_blocks() -> bool {
+    STOP_AFTER_BLOCKS.with(|c| c.get())
+}
+
+/// The crate-private fields of a node: (content, internal_offset, open,
+/// last_line_blank, table_visited, line_offsets).
+pub fn node_internals(
+    node: &crate::nodes::AstNode,
+) -> (String, usize, bool, bool, bool, Vec<usize>) {
+    let ast = node.data.borrow();
+    (
+        ast.content.clone(),
+        ast.internal_offset,
+        ast.open,
+        ast.last_line_blank,
+        ast.table_visited,
+        ast.line_offsets.clone(),
+    )
+}
